@@ -158,10 +158,11 @@ def check_case(res, model, desc, mode, ids, tag):
     hobj = rl if mode is None else [Reaction(r.reactants, r.products) for r in rl] if mode == "brief" else None
     mh = None
     if hobj is not None and model is not None and n:
-        hcls = {}
-        hm = []
-        for a in ALPHABET:
-            hm.append([ids[a], hcls.setdefault(hash(Species(a)), len(hcls))])
+        # hash classes numbered in increasing order of the hash values, so that the model's sort of class
+        # numbers is the sort of the hashes the implementation performs
+        hv = {a: hash(Species(a)) for a in ALPHABET}
+        rank = {v: k for k, v in enumerate(sorted(set(hv.values())))}
+        hm = [[ids[a], rank[hv[a]]] for a in ALPHABET]
         mh = model.call("c15.hash", hm, model_keys(desc, rl, ids))
     for i, j in pairs:
         if hobj is not None:
